@@ -269,6 +269,29 @@ fn member(rng: &mut Rng, luau: bool) -> String {
     format!("local{sp}{name}{sp}={sp}{rhs}{tail}")
 }
 
+/// Statements that look like a group member but are not `local NAME = require(...)` /
+/// `local NAME = game:GetService(...)`: they separate groups and never move.
+fn near_member(rng: &mut Rng) -> String {
+    let names = ["A", "a", "B", "b", "Zed", "alpha", "Module", "utils", "x1", "x2"];
+    let n1 = rng.pick_s(&names);
+    let n2 = rng.pick_s(&names);
+    let m = rng.pick_s(&["b", "a", "pkg/z", "m"]);
+    match rng.below(12) {
+        0 => format!("local {n1}, {n2} = require(\"{m}\")"),
+        1 => format!("local {n1} = require(\"{m}\"), require(\"n\")"),
+        2 => format!("local {n1}, {n2} = require(\"{m}\"), require(\"n\")"),
+        3 => format!("local {n1} = (require(\"{m}\"))"),
+        4 => format!("local {n1} = (game:GetService(\"Players\"))"),
+        5 => format!("{n1} = require(\"{m}\")"),
+        6 => format!("local {n1} = require(\"{m}\") or {{}}"),
+        7 => format!("local {n1} = not require(\"{m}\")"),
+        8 => format!("local {n1} = obj.require(\"{m}\")"),
+        9 => format!("local {n1} = game.GetService(game, \"Players\")"),
+        10 => format!("local {n1} = game:FindService(\"Players\")"),
+        _ => format!("local {n1} = Require(\"{m}\")"),
+    }
+}
+
 pub fn program(rng: &mut Rng, luau: bool) -> String {
     let mut out = String::new();
     if rng.chance(1, 8) {
@@ -278,7 +301,12 @@ pub fn program(rng: &mut Rng, luau: bool) -> String {
         if rng.chance(1, 3) {
             out.push_str("local first = 1\n");
         }
-        for _ in 0..n {
+        let odd_at = if rng.chance(1, 3) { rng.below(n) } else { usize::MAX };
+        for j in 0..n {
+            if j == odd_at {
+                out.push_str(&near_member(rng));
+                out.push('\n');
+            }
             out.push_str(&member(rng, luau));
             out.push('\n');
         }
@@ -298,7 +326,14 @@ pub fn program(rng: &mut Rng, luau: bool) -> String {
             0 => out.push('\n'),
             1 => out.push_str("-- a comment line\n"),
             2 => out.push_str(&format!("local other{k} = {k}\n")),
-            3 => out.push_str(&format!("print({k})\n")),
+            3 => {
+                if rng.chance(1, 2) {
+                    out.push_str(&format!("print({k})\n"));
+                } else {
+                    out.push_str(&near_member(rng));
+                    out.push('\n');
+                }
+            }
             4 => {
                 out.push_str("-- stylua: ignore\n");
                 out.push_str(&member(rng, luau));
@@ -345,7 +380,7 @@ pub fn program(rng: &mut Rng, luau: bool) -> String {
 }
 
 pub fn n_items(w: &Work, ctx: &Ctx) -> usize {
-    w.corpus.len() + if ctx.quick() { 1500 } else { 120000 } + PINNED.len()
+    w.corpus.len() + if ctx.quick() { 6000 } else { 120000 } + PINNED.len()
 }
 
 const PINNED: [&str; 10] = [
